@@ -3,7 +3,8 @@
    and collector goroutines have exited when Close returns, and freedom from data races and deadlocks
    under concurrent use, are runtime facts observed by the harness (goroutine counts, -race), not proved. *)
 From Coq Require Import NArith ZArith List Bool.
-From StunV Require Import Model.Agent Model.Client Proofs.ClientProofs.
+From StunV Require Import Base.ListAux Model.Agent Model.Client Proofs.AgentProofs Proofs.ClientProofs Proofs.ClientInvProofs Proofs.ClientSyncProofs.
+Import ListNotations.
 Import ListNotations.
 Open Scope N_scope.
 
@@ -34,3 +35,19 @@ Print Assumptions C15_closed_tick_silent.
 Theorem C15_callbacks_keep_frame : forall fc fb c id k, frame (fst (callback fc fb c id k)) = frame c.
 Proof. exact callback_frame. Qed.
 Print Assumptions C15_callbacks_keep_frame.
+
+(* when Close has returned — plainly, or while the events of a tick or of a datagram were in flight —
+   the client is closed, the agent is closed, and no transaction is registered any more; this holds after
+   every history, so nothing can be invoked or written later (C10_finished_is_silent) *)
+Theorem C15_after_close_nothing_registered : forall fb tid_of ops rto maxA cc fbh,
+  let c := fst (c_run true fb tid_of (new_client rto maxA cc fbh) ops) in
+  c_closed c = true -> ag_closed (c_A c) = true /\ c_T c = [].
+Proof.
+  intros fb tid_of ops rto maxA cc fbh. cbv zeta. intros H.
+  pose proof (run_sinv fb tid_of ops _ (sinv_new rto maxA cc fbh)) as (_ & _ & S3). apply S3, H.
+Qed.
+Print Assumptions C15_after_close_nothing_registered.
+(* Close itself, from any state of any history, ends closed *)
+Theorem C15_close_closes : forall fb c, c_closed c = false ->
+  c_closed (fst (c_close true fb c)) = true.
+Proof. intros fb c H. apply (close_once true fb c H). Qed.
